@@ -251,6 +251,9 @@ func rulesC03(e *Engine, r *Report) {
 	// ---------------------------------------------------------------- R03.9
 	r.Rule("R03.9", "no eligible file is silently excluded by the wiring: a tag configured without a method is an http tag for every position in the tag list (else the files matching it are put on the ignore list and never sent) - shared with R17.9")
 	e.checkMethodDefault(r, "R03.9")
+	// ---------------------------------------------------------------- R03.10
+	r.Rule("R03.10", "no self-deadlock on the receiver's or the sender's shared state: a method holding a mutex of its receiver (stage, queue, cache, broker) never calls a method of the same receiver that acquires it again - shared with R20.8")
+	e.checkNoReentrantLocking(r, "R03.10", 20, "stage", "queue", "cache", "client")
 }
 
 // checkFailedCompanionDiscarded: the record of ranges of an attempt that
